@@ -12,12 +12,16 @@ package main
 //   cli S=<id=val,...|-> arm=<0|1>
 //   S <tag> <q> <host> <method> <path> <scheme> <ua> <fields> <body>   submit (views of the fasthttp.Request, hex)
 //        q: 1 if Conn.Write's first select put the Ctx on c.in (observed), body: b:<bytes> | s:<size>:<bytes>/<n|e|f>,...
+//   S1 <tag> <q> ... | S2 <tag>     the same Write in two halves: up to its first select (held there by a gate), and the rest
 //   F <K> <flags> <sid> <payload> <pad> <dep> <weight> <code> <inc> <settings>   a frame from the server (as in the server suite)
 //   B <bytes> <unknown|bad|cut>     raw bytes from the server (cut: then the server closes)
 //   R <tag>                         the caller of tag receives from Err (then reusable/takeBack/releaseCtx)
 //   T <tag> | T1 <tag> | T2 <tag>   the cancel timer of tag runs out (both halves of fireTimeout / the first / the second)
 //   C | C1 | C2                     a caller's Conn.Close (whole / up to close(done) / the rest)
 //   E                               the server closes the connection
+//   HW <8 bytes>                    the write loop is held at the top of its loop: a gate is set there and the server sends PING, whose
+//                                   acknowledgement takes the loop round to the gate
+//   RW w=<in>,<out>,<win>           the write loop is let go; observed: how many times it took each select case before it saw done
 //   X                               writes to the socket fail from now on
 //   each event may end with " o=<sid,...>": the order in which streams got DATA during the event (Go's map order, observed)
 // <bytes> is hex, "-" for none, or g<len>.<seed> for the generated pattern genBytes(len, seed).
@@ -118,6 +122,7 @@ type cliEvent struct {
 	raw   []byte
 	class string
 	order []uint32
+	took  [3]int // RW: cases the write loop took after it was let go
 }
 
 type cliScenario struct {
@@ -145,8 +150,8 @@ func (r *cliReq) String() string {
 func (e *cliEvent) String() string {
 	var s string
 	switch e.kind {
-	case "S":
-		s = fmt.Sprintf("S %d %d %s", e.tag, e.q, e.req.String())
+	case "S", "S1":
+		s = fmt.Sprintf("%s %d %d %s", e.kind, e.tag, e.q, e.req.String())
 	case "F":
 		f := &e.fr
 		pad, dep := "-", "-"
@@ -159,8 +164,12 @@ func (e *cliEvent) String() string {
 		s = fmt.Sprintf("F %c %02x %d %s %s %s %d %d %d %s", f.kind, f.flags, f.sid, e.pl.String(), pad, dep, f.weight, f.code, f.inc, fmtSettings(f.settings))
 	case "B":
 		s = fmt.Sprintf("B %s %s", hx(e.raw), e.class)
-	case "R", "T", "T1", "T2":
+	case "R", "T", "T1", "T2", "S2":
 		s = fmt.Sprintf("%s %d", e.kind, e.tag)
+	case "HW":
+		s = "HW " + hx(e.raw)
+	case "RW":
+		s = fmt.Sprintf("RW w=%d,%d,%d", e.took[0], e.took[1], e.took[2])
 	default:
 		s = e.kind
 	}
@@ -223,7 +232,7 @@ func parseCliScenario(line string) *cliScenario {
 			t = t[:len(t)-1]
 		}
 		switch e.kind {
-		case "S":
+		case "S", "S1":
 			e.tag, _ = strconv.Atoi(t[1])
 			e.q, _ = strconv.Atoi(t[2])
 			r := &cliReq{host: unhx(t[3]), method: unhx(t[4]), path: unhx(t[5]), scheme: unhx(t[6]), ua: unhx(t[7]), fields: parseFields(t[8])}
@@ -267,8 +276,18 @@ func parseCliScenario(line string) *cliScenario {
 		case "B":
 			e.raw = unhx(t[1])
 			e.class = t[2]
-		case "R", "T", "T1", "T2":
+		case "R", "T", "T1", "T2", "S2":
 			e.tag, _ = strconv.Atoi(t[1])
+		case "HW":
+			e.raw = unhx(t[1])
+		case "RW":
+			if len(t) > 1 && strings.HasPrefix(t[1], "w=") {
+				for i, x := range strings.Split(t[1][2:], ",") {
+					if i < 3 {
+						e.took[i], _ = strconv.Atoi(x)
+					}
+				}
+			}
 		}
 		sc.evs = append(sc.evs, e)
 	}
@@ -378,10 +397,16 @@ type cliRun struct {
 	closeGate  func()
 	closeRet   chan struct{}
 	timerGate  func()
+	wlGate     func()
+	writeGate  func()
+	writeRet   chan struct{}
+	writeTag   int
 	hung       bool
 	groups     []string
 	reqs       map[uint32]int // stream id -> tag, from the HEADERS observed
 	bad        []string
+	goAwayLast int64           // the smallest last-stream-id of the GOAWAY frames sent (-1: none)
+	refused    map[uint32]bool // streams the server reset with REFUSED_STREAM
 
 	// the scripted server's flow-control ledger (C07): what it has granted and what it has been sent
 	connGranted, connSent int64
@@ -402,7 +427,7 @@ func clientTicks() []int64 {
 // startClientRun brings the connection up to the end of the handshake.
 func startClientRun(sc *cliScenario) *cliRun {
 	r := &cliRun{sc: sc, tags: map[int]*cliTag{}, reqs: map[uint32]int{}, connGranted: 65535, curInit: 65535, curMaxFrame: 16384,
-		strGranted: map[uint32]int64{}, strSent: map[uint32]int64{}}
+		strGranted: map[uint32]int64{}, strSent: map[uint32]int64{}, goAwayLast: -1, refused: map[uint32]bool{}}
 	r.ledgerSettings(sc.settings)
 	pc := fasthttputil.NewPipeConns()
 	r.cc = &cliConn{Conn: pc.Conn1()}
@@ -522,7 +547,11 @@ func (r *cliRun) quiesce() bool {
 			rlOK = tick(t, http2.VerifTickCliRead) >= r.sent+1
 		}
 		wlOK := tick(t, http2.VerifTickCliWLExit) >= 1
-		if !wlOK && !closed {
+		if !wlOK && r.wlGate != nil {
+			// held: the loop is in its select or parked at the gate, not in the middle of a case
+			taken := tick(t, http2.VerifTickCliInTaken) + tick(t, http2.VerifTickCliOutTaken) + tick(t, http2.VerifTickCliWinTaken) + tick(t, http2.VerifTickCliPingTaken)
+			wlOK = tick(t, http2.VerifTickCliWLTop) == 1+taken
+		} else if !wlOK && !closed {
 			taken := tick(t, http2.VerifTickCliInTaken) + tick(t, http2.VerifTickCliOutTaken) + tick(t, http2.VerifTickCliWinTaken) + tick(t, http2.VerifTickCliPingTaken)
 			wlOK = tick(t, http2.VerifTickCliInSent) == tick(t, http2.VerifTickCliInTaken) &&
 				tick(t, http2.VerifTickCliOutSent) == tick(t, http2.VerifTickCliOutTaken) &&
@@ -564,12 +593,16 @@ func classifyErr(err error) string {
 		return "nostreams"
 	case errors.Is(err, http2.ErrNoMoreStreamIDs):
 		return "noids"
-	case errors.Is(err, errScriptedWrite), http2.VerifIsWriteError(err):
+	case errors.Is(err, errScriptedWrite), http2.VerifIsWriteError(err), errors.Is(err, fasthttputil.ErrConnectionClosed):
+		// (the pipe's ErrConnectionClosed only ever comes out of Write)
 		return "write"
 	case errors.As(err, &h2e) && h2e.Debug() == "stream reset by the server":
 		return fmt.Sprintf("reset%d", uint32(h2e.Code()))
 	}
 	msg := err.Error()
+	if strings.HasPrefix(msg, "reading the request body") {
+		return "body"
+	}
 	for _, m := range []string{"pseudo-header field after regular header field", "invalid :status pseudo-header",
 		"header field name contains uppercase characters", "connection-specific header field", "invalid content-length",
 		"invalid response pseudo-header"} {
@@ -599,11 +632,7 @@ func respView(res *fasthttp.Response) string {
 	if len(parts) > 0 {
 		fields = strings.Join(parts, ",")
 	}
-	// fasthttp reports no content length for the statuses that cannot have a body
 	cl := strconv.Itoa(res.Header.ContentLength())
-	if st := res.StatusCode(); st < 200 || st == 204 || st == 304 {
-		cl = "*"
-	}
 	return fmt.Sprintf("%d:%s:%s:%s", res.StatusCode(), cl, fields, proj(res.Body()))
 }
 
@@ -714,7 +743,7 @@ func (r *cliRun) checkRequestBlock(f obsFrame) {
 	r.reqs[f.sid] = tag
 	var req *cliReq
 	for _, e := range r.sc.evs {
-		if e.kind == "S" && e.tag == tag {
+		if (e.kind == "S" || e.kind == "S1") && e.tag == tag {
 			req = e.req
 		}
 	}
@@ -750,7 +779,12 @@ func (r *cliRun) step(ev *cliEvent) string {
 	}
 	var extra []string
 	switch ev.kind {
-	case "S":
+	case "S", "S1":
+		if r.writeGate != nil {
+			// a Write is parked between its selects: another one would park at the same gate
+			r.bad = append(r.bad, "submit-while-write-held")
+			break
+		}
 		req := buildRequest(ev.req)
 		res := fasthttp.AcquireResponse()
 		res.Header.SetNoDefaultContentType(true)
@@ -761,13 +795,49 @@ func (r *cliRun) step(ev *cliEvent) string {
 		r.tags[ev.tag] = &cliTag{req: req, res: res, ctx: ctx}
 		before := tick(clientTicks(), http2.VerifTickCliInSent)
 		done := make(chan struct{})
+		if ev.kind == "S1" {
+			r.writeGate = http2.VerifGate(http2.VerifTickCliInSent)
+			r.writeRet, r.writeTag = done, ev.tag
+		}
 		go func() { r.conn.Write(ctx); close(done) }()
-		select {
-		case <-done:
-		case <-time.After(3 * time.Second):
-			r.hung = true
+		if ev.kind == "S" {
+			select {
+			case <-done:
+			case <-time.After(3 * time.Second):
+				r.hung = true
+			}
+		} else {
+			// until Write has queued the Ctx and sits at the gate, or has returned (done was closed and it took that case)
+			for dl := time.Now().Add(3 * time.Second); tick(clientTicks(), http2.VerifTickCliInSent) == before; {
+				returned := false
+				select {
+				case <-done:
+					returned = true
+				default:
+				}
+				if returned {
+					r.writeGate()
+					r.writeGate, r.writeRet = nil, nil
+					break
+				}
+				if time.Now().After(dl) {
+					r.hung = true
+					break
+				}
+				time.Sleep(20 * time.Microsecond)
+			}
 		}
 		ev.q = int(tick(clientTicks(), http2.VerifTickCliInSent) - before)
+	case "S2":
+		if r.writeGate != nil && r.writeTag == ev.tag {
+			r.writeGate()
+			select {
+			case <-r.writeRet:
+			case <-time.After(3 * time.Second):
+				r.hung = true
+			}
+			r.writeGate, r.writeRet = nil, nil
+		}
 	case "F":
 		r.sent++
 		if ev.fr.kind == 'S' && ev.fr.flags&1 == 0 && ev.fr.sid == 0 {
@@ -777,6 +847,14 @@ func (r *cliRun) step(ev *cliEvent) string {
 				}
 			}
 			r.ledgerSettings(ev.fr.settings)
+		}
+		if ev.fr.kind == 'A' && ev.fr.sid == 0 {
+			if last := ev.fr.dep & 0x7fffffff; r.goAwayLast < 0 || last < r.goAwayLast {
+				r.goAwayLast = last
+			}
+		}
+		if ev.fr.kind == 'R' && ev.fr.code == 7 {
+			r.refused[ev.fr.sid&0x7fffffff] = true
 		}
 		if ev.fr.kind == 'W' {
 			if sid := ev.fr.sid & 0x7fffffff; sid == 0 {
@@ -850,6 +928,33 @@ func (r *cliRun) step(ev *cliEvent) string {
 				}
 			}
 		}
+	case "HW":
+		if r.wlGate == nil && len(ev.raw) == 8 {
+			r.wlGate = http2.VerifGate(http2.VerifTickCliWLTop)
+			f := newFrame('G', 0, 0)
+			f.payload = ev.raw
+			r.sent++
+			_, _ = r.c2.Write(f.wire())
+			// the acknowledgement has to be out before the loop counts as held
+			before := tick(clientTicks(), http2.VerifTickCliOutTaken)
+			for dl := time.Now().Add(3 * time.Second); tick(clientTicks(), http2.VerifTickCliOutTaken) == before && tick(clientTicks(), http2.VerifTickCliWLExit) == 0; {
+				if time.Now().After(dl) {
+					break
+				}
+				time.Sleep(20 * time.Microsecond)
+			}
+		}
+	case "RW":
+		if r.wlGate != nil {
+			t0 := clientTicks()
+			r.wlGate()
+			r.wlGate = nil
+			r.quiesce()
+			t1 := clientTicks()
+			ev.took = [3]int{int(tick(t1, http2.VerifTickCliInTaken) - tick(t0, http2.VerifTickCliInTaken)),
+				int(tick(t1, http2.VerifTickCliOutTaken) - tick(t0, http2.VerifTickCliOutTaken)),
+				int(tick(t1, http2.VerifTickCliWinTaken) - tick(t0, http2.VerifTickCliWinTaken))}
+		}
 	case "C2":
 		if r.closeGate != nil {
 			r.closeGate()
@@ -902,6 +1007,14 @@ func (r *cliRun) receive(tag int) string {
 		default:
 		}
 	}
+	// C11: retryable only if the server cannot have processed the request
+	if http2.VerifRetryable(err) {
+		for sid, t := range r.reqs {
+			if t == tag && !(r.goAwayLast >= 0 && int64(sid) > r.goAwayLast) && !r.refused[sid] {
+				r.bad = append(r.bad, fmt.Sprintf("retryable-after-headers-%d", tag))
+			}
+		}
+	}
 	return fmt.Sprintf("r%d:%d:%s:%s:%d", tag, b2i(http2.VerifRetryable(err)), classifyErr(err), view, b2i(reuse))
 }
 
@@ -914,6 +1027,14 @@ func (r *cliRun) finish() string {
 	if r.closeGate != nil {
 		r.closeGate()
 		r.closeGate = nil
+	}
+	if r.wlGate != nil {
+		r.wlGate()
+		r.wlGate = nil
+	}
+	if r.writeGate != nil {
+		r.writeGate()
+		r.writeGate = nil
 	}
 	_ = r.c2.Close()
 	if r.conn != nil {
